@@ -81,7 +81,9 @@ class DampedOscillationMegacomplex(Megacomplex):
             f"{label}_sin" for label in self.labels
         ]
 
-        delta = np.abs(model_axis[1:] - model_axis[:-1])
+        # the smallest sampling interval (the axis is not necessarily sorted)
+        sorted_model_axis = np.sort(model_axis)
+        delta = np.abs(sorted_model_axis[1:] - sorted_model_axis[:-1])
         delta_min = delta[np.argmin(delta)]
         # c multiply by 0.03 to convert wavenumber (cm-1) to frequency (THz)
         # where 0.03 is the product of speed of light 3*10**10 cm/s and time-unit ps (10^-12)
